@@ -108,3 +108,5 @@ def run(P, R, tier):
         R.check(ax == 0, "SHAPE.argmin", g.key, src(c), "argmin over the cluster axis of a (clusters, samples) array", f"argmin is taken over axis {ax}: with distances of shape (clusters, samples) this picks the nearest *sample* of each cluster, not the nearest centroid of each sample", c.lineno)
     from ..engines import dtype as _dt
     _dt.check_function(P, R, "kmeans:e_step", raw_params=("data",))
+    from ..engines import proto as _pp
+    _pp.check_pairwise_folds(P, R, ['kmeans', 'utils'])
